@@ -16,14 +16,14 @@ RULE = (
     "case = (wide generated workflow: 3-10 independent/chained jobs from split nodes over 2-6 elements and parallel "
     "nodes) x limit k in 1..jobs x seeded schedule with a pool at least as large as the job count (so the pool never "
     "masks the limit) and a bias to keep workers inside their bodies; oracle: at every event the number of bodies "
-    "between enter and exit is <= k.  Non-trivial = k < number of jobs that could run at once and >= 2 bodies overlapped "
+    "between enter and exit, and the number of jobs being run by pool processes, is <= k.  Non-trivial = k < number of jobs that could run at once and >= 2 bodies overlapped "
     "or were dispatched together; distinct = distinct step/event digest."
 )
 COMPONENTS = {
     "real": ["Submitter.get_runnable_tasks (max_concurrent truncation)", "NodeExecution.update_status", "expand_workflow_async", "ConcurrentFuturesWorker", "Job.run"],
     "stub": ["selector event loop -> SimLoop", "ProcessPoolExecutor -> SimPool of lockstep actors (size >= job count)", "OS scheduler -> seeded controller"],
 }
-ASSUMPTIONS = ["'executing' is read in its weakest sense: inside the task body (between body-enter and body-exit); pool dispatch intervals are only reported"]
+ASSUMPTIONS = ["'executing' is judged at two levels: inside the task body (between body-enter and body-exit), and being run by a worker process (from the moment a pool process picks the job up until it has finished it); jobs merely waiting in the pool's queue do not count"]
 PROBES = ["bodies_overlapped", "job_seen_running", "limit_reached", "dispatched_over_limit"]
 N = {"quick": 300, "thorough": 8000}
 
@@ -32,8 +32,22 @@ def plan(tier, seed):
     return [{"id": f"c{i}", "i": i} for i in range(N.get(tier, 300))]
 
 
+def two_level_spec(ch):
+    """two first-level nodes feeding two split second-level nodes: the node that comes
+    first in the sorted order may become runnable *after* the later one was submitted"""
+    nodes = [
+        {"name": "n0", "label": "n0", "kind": "tok", "ins": {"a": ["c", 0]}, "split": None, "combine": None},
+        {"name": "n1", "label": "n1", "kind": "tok", "ins": {"a": ["c", 1]}, "split": None, "combine": None},
+        {"name": "m0", "label": "m0", "kind": "tok", "ins": {"a": ["xs"], "b": ["n", "n0"]}, "split": "a", "combine": None},
+        {"name": "m1", "label": "m1", "kind": "tok", "ins": {"a": ["xs"], "b": ["n", "n1"]}, "split": "a", "combine": None},
+    ]
+    return {"nodes": nodes, "out": "m1", "late": []}
+
+
 def wide_spec(ch):
     """split nodes and parallel nodes: many jobs runnable at once"""
+    if ch.choose(3, "shape") == 0:
+        return two_level_spec(ch)
     nodes = []
     n_par = ch.randint(1, 4, "n-par")
     for i in range(n_par):
@@ -98,6 +112,8 @@ def run_case(case, ch, workdir):
             violation(res, "no-termination", sig, f"{val} (workflow: {desc}, k={k})")
         elif status != "ok":
             violation(res, "unexpected-error", sig, f"{val.get('type')}: {val.get('msg', '')[:400]} (workflow: {desc}, k={k})")
+        if env.pool.max_running > k:
+            violation(res, "limit-exceeded-dispatch", sig, f"{env.pool.max_running} jobs were being run by worker processes at once with max_concurrent={k} (workflow: {desc}, xs={len(xs)}, jobs={njobs})")
         if mx > k:
             violation(res, "limit-exceeded", sig, f"{mx} task bodies executing at once with max_concurrent={k} (workflow: {desc}, xs={len(xs)}, jobs={njobs}); peak reached when {at[:80]} entered")
         res["faults"] = dict(sim.faults)
